@@ -25,6 +25,7 @@ RULE = ("cases: (target, platform, text) with target in the 11 exported construc
         "exception type, innermost library frame) resp. (target, kind of the first parse). Non-trivial: >= 3 "
         "tokens and the target returned an object or rejected the text at least two library frames deep; "
         "distinct by (target, platform, text)")
+RULE += ". Directed classes added after the seeded-change rounds: group_by markers as free text; corpus configurations with nested group-object, link-type interface headings, one group name under both headings, classic numbered access-list lines, version-specific port numbers"
 ASSUMPTIONS = ["ValueError / TypeError and their subclasses (NetmaskValueError, AddressValueError, InvalidVersion, "
                "NetportsValueError) are the documented errors",
                "the re-accept clause is judged on the documented platforms ios and nxos only",
